@@ -7,7 +7,7 @@
    - history stays append-only (lock history; for the published history see the known finding);
    - a log is never created over an existing one; LoadLog refuses storage ahead of the lock
      store, same size with another root, a foreign key or name, an extension line. *)
-From SL Require Import Ctlog.Model Ctlog.Spec Ctlog.Inv Ctlog.Theorems Ctlog.Example.
+From SL Require Import Ctlog.Model Ctlog.Spec Ctlog.Inv Ctlog.Theorems Ctlog.Example Ctlog.Stop Ctlog.Frame Ctlog.Writer.
 
 Theorem C06_no_fork : forall (sha : bytes -> bytes) (evs : list ev),
   let w := run sha evs init in
@@ -62,3 +62,11 @@ Proof.
   split; [reflexivity|]. discriminate.
 Qed.
 Print Assumptions C06_published_rollback_refuted.
+
+(* Who can write the lock store at all: the compare-and-swap step of a running round and the
+   Lock.Create step of CreateLog, nothing else — not LoadLog, not any other phase of a round, not a
+   submission, a stop, a crash, the recompute tool or tampering with object storage. *)
+Theorem C06_lock_written_only_by_cas_or_create : forall (sha : bytes -> bytes) w e,
+  same_lock w (fst (step sha w e)) \/ lock_writer w e.
+Proof. exact lock_changes_only_at_cas_or_create. Qed.
+Print Assumptions C06_lock_written_only_by_cas_or_create.
